@@ -44,6 +44,8 @@ type c18Params struct {
 	Clients  int   `json:"clients"`
 	Segment  int   `json:"segment"`
 	DelayPct int   `json:"delay_pct"`
+	// FailAPIReadsPct: per mille of the database reads issued by API handlers that fail by injection
+	FailAPIReadsPct int `json:"fail_api_reads_pm"`
 }
 
 func init() {
@@ -422,9 +424,22 @@ func c18Run(j *orch.Job, r *orch.Result) error {
 	txHeight := map[int64]uint32{}
 	drng := rand.New(rand.NewSource(p.Seed ^ 77))
 	var dmu sync.Mutex
+	var apiReadsFailed int64
 	vdriver.Set(&vdriver.Hooks{
 		Decide: func(ev *vdriver.Event) (vdriver.Action, time.Duration) {
 			if !ev.InTx {
+				// now and then a read issued by an API handler fails (a busy database, an I/O error): the request
+				// may fail, the daemon and its ledger must not notice. Reads of the sync loop are left alone
+				// (a failing read there ends in crash-stop and restart, which is C10's subject).
+				if p.FailAPIReadsPct > 0 && (ev.Kind == vdriver.KQuery || ev.Kind == vdriver.KExec) {
+					dmu.Lock()
+					x := drng.Intn(1000)
+					dmu.Unlock()
+					if x < p.FailAPIReadsPct && vdriver.CallerHas("pegnetd/srv.(*APIServer)") {
+						atomic.AddInt64(&apiReadsFailed, 1)
+						return vdriver.FailInstead, 0
+					}
+				}
 				return vdriver.Proceed, 0
 			}
 			if ev.Kind == vdriver.KCommit {
@@ -687,6 +702,7 @@ func c18Run(j *orch.Job, r *orch.Result) error {
 	}
 	r.Count("api_errors", atomic.LoadInt64(&apiErrors))
 	r.Count("requests_aborted_by_client", atomic.LoadInt64(&aborted))
+	r.Count("api_reads_failed_by_injection", atomic.LoadInt64(&apiReadsFailed))
 	r.Count("differential_pairs", 1)
 	if final.Total != prep.Final {
 		var rows map[string][]string
@@ -752,7 +768,7 @@ func checkC18(c *Ctx) *orch.Outcome {
 		seed := c.Seed*100 + int64(i)
 		cl := clients + (i%3)*10
 		dir := c.R.JobDir(fmt.Sprintf("c18-chain-%d", seed))
-		pj, _ := json.Marshal(c18Params{Dir: dir, Seed: seed, Blocks: blocks, Clients: cl, Segment: 10, DelayPct: 2 + (i%3)*3})
+		pj, _ := json.Marshal(c18Params{Dir: dir, Seed: seed, Blocks: blocks, Clients: cl, Segment: 10, DelayPct: 2 + (i%3)*3, FailAPIReadsPct: []int{0, 5, 20}[i%3]})
 		prepJobs = append(prepJobs, orch.Job{Kind: "c18.prep", Name: fmt.Sprintf("c18-prep-%d", seed), Seed: seed, Params: pj, Timeout: 900, Dir: dir})
 		jobs = append(jobs, orch.Job{Kind: "c18.run", Name: fmt.Sprintf("c18-%d", seed), Seed: seed, Params: pj, Timeout: 1800, Race: true})
 	}
@@ -801,6 +817,7 @@ func checkC18(c *Ctx) *orch.Outcome {
 	o.Extra["distinct_race_reports_with_daemon_frames"] = len(raceSigs)
 	o.Extra["api_transport_errors"] = orch.SumCounter(rs, "api_errors")
 	o.Extra["requests_aborted_by_client"] = orch.SumCounter(rs, "requests_aborted_by_client")
+	o.Extra["api_reads_failed_by_injection"] = orch.SumCounter(rs, "api_reads_failed_by_injection")
 	o.Extra["error_responses_not_judged"] = orch.SumCounter(rs, "error_responses_not_judged")
 	o.Extra["error_texts"] = orch.UnionDistinct(rs, "error_texts")
 	o.Extra["porcupine_timeouts_counted_inconclusive_for_cross_response_order_only"] = orch.SumCounter(rs, "porcupine_timeouts")
